@@ -30,7 +30,8 @@ def gen_request(rng):
         elif r < 0.65:
             req[f] = ""
         elif f in ("announce", "url-list", "httpseeds"):
-            pool = [u for u in metas.URLS if not any(ch.isspace() for ch in u)]
+            pool = [u for u in metas.URLS if not any(ch.isspace() for ch in u)] + \
+                ["http://t/it's", 'http://t/"quoted"', "http://t/back\\slash", "http://t/a'b'c"]
             urls = rng.sample(pool, rng.randrange(1, 4))
             req[f] = urls if rng.random() < 0.6 else " ".join(urls)
         elif f == "private":
@@ -237,6 +238,15 @@ def foreign_meta(rng, box):
                                 trailing_pad=True, with_length=True, extra=extra,
                                 info_extra=info_extra)
     raw = refspec.encode(meta)
+    if rng.random() < 0.4:
+        # written by a tool that does not sort: the info dictionary keeps its own key order, and
+        # an edit that names no info field must leave those bytes (hence the info-hash) alone
+        items = list(meta["info"].items())
+        rng.shuffle(items)
+        meta["info"] = dict(items)
+        top = list(meta.items())
+        rng.shuffle(top)
+        raw = refspec.encode_ordered(dict(top))
     path = os.path.join(box, "foreign.torrent")
     with open(path, "wb") as fd:
         fd.write(raw)
